@@ -20,6 +20,9 @@ const (
 	ckNil
 	ckFalse
 	ckCoroutine // the handler itself creates, resumes, wraps and closes coroutines
+	ckRaiseOwnTbc // the handler raises while it has a pending to-be-closed variable of its own
+	ckOwnTbc      // the handler has to-be-closed variables of its own and returns normally
+	ckYield       // the handler yields (only meaningful inside a coroutine)
 	ckNumKinds
 )
 
@@ -36,6 +39,17 @@ func gridCloser(id string, kind int) Expr {
 		body = append(body, &CallStmt{Call: C(N("error"), S("from-"+id), I(0))})
 	case ckRaiseTbl:
 		body = append(body, &CallStmt{Call: C(N("error"), &Table{Items: []TItem{{NameKey: "from", Val: S(id)}}})})
+	case ckRaiseOwnTbc:
+		body = append(body,
+			&Local{Names: []string{"own"}, Attribs: []string{"close"}, Exprs: []Expr{gridCloser(id+"-own", ckPlain)}},
+			&CallStmt{Call: C(N("error"), S("from-"+id), I(0))})
+	case ckOwnTbc:
+		body = append(body,
+			&Local{Names: []string{"own"}, Attribs: []string{"close"}, Exprs: []Expr{gridCloser(id+"-own", ckPlain)}},
+			&Do{Body: []Stmt{&Local{Names: []string{"own2"}, Attribs: []string{"close"}, Exprs: []Expr{gridCloser(id+"-own2", ckPlain)}}}},
+			Emit(S("handler-end"), S(id)))
+	case ckYield:
+		body = append(body, Emit(S("handler-resumed"), S(id), C(N("pcall"), co("yield"), S("in-handler-"+id))))
 	case ckCoroutine:
 		body = append(body,
 			&Local{Names: []string{"hco"}, Exprs: []Expr{C(co("create"), &Func{Params: []string{"a"}, Body: []Stmt{
@@ -238,7 +252,7 @@ func CloseGrid(depth int) []GridCase {
 		name += exitNames[ex] + fmt.Sprintf("/outer%d/inner%d/kinds%v", nOuter, nInner, kinds)
 		return GridCase{Name: name, Block: append(prelude(), append(stmts, Emit(S("program-end")))...)}, true
 	}
-	kindSets := [][]int{{ckPlain}, {ckPlain, ckRaiseStr}, {ckRaiseTbl, ckPlain}, {ckNil, ckPlain, ckFalse}, {ckRaiseStr, ckRaiseTbl}, {ckCoroutine, ckPlain}}
+	kindSets := [][]int{{ckPlain}, {ckPlain, ckRaiseStr}, {ckRaiseTbl, ckPlain}, {ckNil, ckPlain, ckFalse}, {ckRaiseStr, ckRaiseTbl}, {ckCoroutine, ckPlain}, {ckPlain, ckRaiseOwnTbc}, {ckRaiseOwnTbc, ckOwnTbc}}
 	rec = func(levels []int) {
 		if len(levels) == depth {
 			for ex := 0; ex < exNumKinds; ex++ {
